@@ -35,6 +35,8 @@ class VideoFormat2(object):
             raise Exception("Option Intra-packet header is not supported")
         self.datastream = DataStream((self.channel_specific_word >> TP_OFFSET) & 0x1)
 
+        # Decode into a new transport stream object: the previous one may have been handed to other code
+        self.mpegts = MPEGTS()
         self.mpegts.unpack(buffer[4:])
 
         return True
